@@ -272,7 +272,10 @@ fn write_file_res<C: Context>(ctx: &mut C, r: i64, num: u32, c: &str, v: i64, tw
     Ok(())
   };
   if two_step {
-    { let mut f = ctx.create_writer(&path).expect("harness: unexpected create_writer error"); set(&mut f).expect("harness: file write"); }
+    // the file is produced by other means (as an external tool would) and only declared afterwards: no pie writer involved
+    // (odd values; even values go through the writer pie hands out)
+    if v.rem_euclid(2) == 1 { let mut f = std::fs::File::create(&path).expect("harness: create file"); set(&mut f).expect("harness: file write"); }
+    else { let mut f = ctx.create_writer(&path).expect("harness: unexpected create_writer error"); set(&mut f).expect("harness: file write"); }
     match c { "ex" => ctx.written_to(&path, ExistsChecker), _ => ctx.written_to(&path, HashChecker) }.expect("harness: unexpected written_to error");
   } else {
     match c { "ex" => ctx.write(&path, ExistsChecker, set), _ => ctx.write(&path, HashChecker, set) }.expect("harness: unexpected write error");
